@@ -99,14 +99,14 @@ def run (args : List Str) : String × String × String :=
         | some pt => if pt.isEmpty then encField [] else encField (joinDots (tokReplace (mapGet m) pt))
         | none => "-"
       (encField out, sp, if out = p then "repl-same" else "repl-changed")
-    else if c = str "replacetag" then
+    else if c = str "replacetag" || c = str "idtorid" then
       match rest with
       | [t, v] =>
         let out := replaceTag p t v
         let sp := match parse p with
           | some pt => if pt.isEmpty then encField [] else encField (joinDots (tokReplace (fun x => if t = x then some v else none) pt))
           | none => "-"
-        (encField out, sp, if out = p then "repl-same" else "repl-changed")
+        (encField out, sp, (if c = str "idtorid" then "idt-" else "repl-") ++ (if out = p then "same" else "changed"))
       | _ => bad
     else match rest with
       | [] => (run1 c p).getD bad
